@@ -281,10 +281,11 @@ def build_scenarios(prop, tier, rnd):
                 [{"op": "put", "k": 2, "c": "B"}, {"op": "put", "k": 1, "c": "G"}, {"op": "del", "k": 2}, {"op": "reopen"}]
             add(many, {"kt": "string", "n": 10000, "sync": True}, {"mode": "plain"}, chunk=3)
         if prop == "C02":
-            # a restart right after ONE very large log record (a range removal over many / long keys: 1.3 MB, 4 MB) and
+            # a restart right after ONE very large log record (a range removal over many / long keys: 1.3 MB, 4 MB, 18 MB, 40 MB) and
             # after a removal whose record is the last of its segment
-            for j, (bn, kl, ck, wn) in enumerate([(150, 9000, True, 10000), (1300, 0, False, 1000)] if q else
-                                                 [(150, 9000, True, 10000), (1300, 0, False, 1000), (450, 9000, False, 3), (5000, 40, True, 5003)]):
+            for j, (bn, kl, ck, wn) in enumerate([(150, 9000, True, 10000), (1300, 0, False, 1000), (2000, 9000, False, 10000)] if q else
+                                                 [(150, 9000, True, 10000), (1300, 0, False, 1000), (450, 9000, False, 3), (5000, 40, True, 5003),
+                                                  (2000, 9000, False, 10000), (4400, 9000, True, 10000)]):
                 add([], {"kt": "string", "n": wn, "sync": j % 2 == 0}, {"mode": "bulk", "n": bn, "distinct": 1, "ckpt": ck, "keylen": kl})
         # big-record key types
         for i, ops in enumerate(long_[: (10 if q else 100)]):
@@ -322,7 +323,7 @@ def build_scenarios(prop, tier, rnd):
                 {"mode": "crash", "nested": False, "cont": True, "cont_ops": cont, "sparse_open": "few" if q else "more"})
             # block abstraction: a range removal over MANY keys (more than any plausible internal batch) is still one
             # operation; an image at every boundary inside it recovers to all-or-nothing
-            for j, (bn, dist, ck, wn) in enumerate([(1300, 1, True, 1000), (70, 7, False, 3)] if q else
+            for j, (bn, dist, ck, wn) in enumerate([(1300, 1, True, 1000), (70, 7, False, 3), (4500, 2, False, 10000)] if q else
                                                    [(1300, 1, True, 1000), (70, 7, False, 3), (2100, 50, True, 500), (5000, 1, False, 10000),
                                                     (300, 300, True, 7), (1025, 2, False, 2000), (4097, 3, True, 4096)]):
                 add([], {"kt": "string", "n": wn, "sync": j % 3 != 2}, {"mode": "bulk", "n": bn, "distinct": dist, "ckpt": ck})
